@@ -97,8 +97,10 @@ P = {
     "C04": ("proof",
             "Theorems request/response/header_slices_in_order, chain_zero_copy, model_request_slices (Thm/C04.v): every slice is a sub-slice "
             "of the buffer with the buffer's bytes, inside buf[..n] on Complete(n), and method, path/reason, name, value ... form a "
-            "non-overlapping increasing chain. PARTIAL: the static (lifetime) half is not formalised; it is not covered by a theorem.",
-            "Coq proof (chain invariant over the reference parsers + refinement), + pointer-range differential runs"),
+            "non-overlapping increasing chain. Static half: public_lifetimes_as_reviewed -- the public signatures that carry a lifetime, translated "
+            "from /repo each run, are exactly the reviewed list (buffer, Header elements and fields share one lifetime). PARTIAL: from those signatures "
+            "to 'no safe client can keep a field after its buffer' is rustc's borrow checker (trusted), exercised by a compile-fail client corpus.",
+            "Coq proof (chain invariant over the reference parsers + refinement; signature table by vm_compute), + pointer-range differential runs + compile-fail client corpus"),
     "C10": ("proof",
             "Theorems error_kind_eq, request_line/status_line/header_line_error_kinds, stage_error_kinds, too_many_iff (Thm/C10.v): the model "
             "reports the reference's classification; each reference stage raises only the kind of its own element; TooManyHeaders iff the "
